@@ -14,34 +14,65 @@ import (
 
 func c04Height(T int32) int { return bits.Len32(uint32(T)) - 1 }
 
+// the correspondence domain (the model side answers BAD outside it): at most 2^13 search values
+// in the window, Decode on heights <= 14.  Outside it the real function is not called at all, so a
+// shrinking step of ./check cannot ask for 2^30 words.
+func c04WinOK(T int32, from, to uint64) bool {
+	if T < 1 {
+		return false
+	}
+	t := to>>32 + 1
+	if c := uint64(1) << uint(c04Height(T)); t > c {
+		t = c
+	}
+	return t <= from>>32 || t-from>>32 <= 8192
+}
+func c04DecOK(T int32) bool { return T >= 1 && c04Height(T) <= 14 }
+
+func c04AllPaths(T int32, from, to uint64) []uint64 {
+	if !c04WinOK(T, from, to) {
+		panic("out of the correspondence domain")
+	}
+	return bmtree.AllPaths(T, from, to)
+}
+func c04Decode(T int32, bm []uint64) []uint64 {
+	if !c04DecOK(T) {
+		panic("out of the correspondence domain")
+	}
+	return bmtree.Decode(T, bm)
+}
+
 func init() {
 	Exec["bmtree.AllPaths"] = func(a []V) string {
-		return U64s(bmtree.AllPaths(a[0].I32(), a[1].U64(), a[2].U64()))
+		return U64s(c04AllPaths(a[0].I32(), a[1].U64(), a[2].U64()))
 	}
 	Exec["bmtree.Decode"] = func(a []V) string {
-		return U64s(bmtree.Decode(a[0].I32(), a[1].U64s()))
+		return U64s(c04Decode(a[0].I32(), a[1].U64s()))
 	}
 	// held variants: both calls are made before either result is read
 	Exec["bmtree.AllPaths/held"] = func(a []V) string {
 		x, y := a[0].L, a[1].L
-		r1 := bmtree.AllPaths(x[0].I32(), x[1].U64(), x[2].U64())
-		r2 := bmtree.AllPaths(y[0].I32(), y[1].U64(), y[2].U64())
+		r1 := c04AllPaths(x[0].I32(), x[1].U64(), x[2].U64())
+		r2 := c04AllPaths(y[0].I32(), y[1].U64(), y[2].U64())
 		return L(U64s(r1), U64s(r2))
 	}
 	Exec["bmtree.Decode/held"] = func(a []V) string {
 		x, y := a[0].L, a[1].L
-		r1 := bmtree.Decode(x[0].I32(), x[1].U64s())
-		r2 := bmtree.Decode(y[0].I32(), y[1].U64s())
+		r1 := c04Decode(x[0].I32(), x[1].U64s())
+		r2 := c04Decode(y[0].I32(), y[1].U64s())
 		return L(U64s(r1), U64s(r2))
 	}
 	Exec["bmtree.Decode/roundtrip"] = func(a []V) string {
 		T := a[0].I32()
+		if !c04DecOK(T) {
+			panic("out of the correspondence domain")
+		}
 		h := int32(c04Height(T))
 		idx := make([]int32, 0, len(a[1].L))
 		for _, q := range a[1].L {
 			idx = append(idx, bmtree.PathToIndex(T, c10Word(h, q)))
 		}
-		return U64s(bmtree.Decode(T, bitmap.Of(idx)))
+		return U64s(c04Decode(T, bitmap.Of(idx)))
 	}
 	Register("C04", genC04)
 }
@@ -455,6 +486,27 @@ func genC04(g *Gen) {
 			allpaths(T, 0, ^uint64(0), "A-whole-"+mk)
 			allpaths(T, 0, 1<<63, "A-whole-"+mk)
 		}
+	}
+
+	// (3b) a few tall Decode cases (heights 13, 14: more than 128 / 256 bitmap words), sparse bitmaps with
+	//      bits in the last words
+	for k, nk := 0, g.N(4, 40); k < nk; k++ {
+		h := g.R.Range(13, 14)
+		T := int32(uint32(1)<<uint(h) | uint32(g.R.U64())&(uint32(1)<<uint(h)-1))
+		if k%2 == 0 {
+			T = int32(uint32(1)<<uint(h+1) - 1 - uint32(g.R.Intn(4)))
+		}
+		nw := (int(T)+63)/64 + g.R.Pick(0, 0, 2, -1)
+		bm := make([]uint64, nw)
+		for j := 0; j < 6; j++ {
+			bm[g.R.Intn(nw)] |= 1 << uint(g.R.Intn(64))
+			bm[nw-1-g.R.Intn(4)] |= 1 << uint(g.R.Intn(64))
+		}
+		bm[(int(T)-1)>>6%nw] |= 1 << uint((int(T)-1)&63)
+		decode(T, bm, "D-tall")
+		st := c04Stored(T, h)
+		S := []c04Node{st[0], st[len(st)/2], st[len(st)-2], st[len(st)-1]}
+		roundtrip(T, S, "R-tall")
 	}
 
 	// (4) Decode / round trip, heights 0..10 (thorough: 12): bitmaps of ceil(T/64)-1, +0, +2 words,
